@@ -115,8 +115,8 @@ def verify_fun(f, ops_index=None, cache_limits=None, seen_slots=None):
     for ins in code:
         offsets.append(off)
         if ins[0] not in LEN:
-            out.append('unknown instruction ' + ins[0])
-            return out
+            # an instruction this verifier has no table entry for: no verdict (the caller counts it inconclusive)
+            raise ValueError('lyverify has no table entry for instruction ' + ins[0])
         off += LEN[ins[0]]
     total = off
 
